@@ -240,6 +240,7 @@ class Queue(Greenlet):
         self.queued = []
         self.active_ids = set()
         self.queued_ids = set()
+        self.enqueue_watchers = {}
         self.queued_lock = Semaphore(1)
         self.queue_policies = []
         self._use_pool('store_pool', store_pool)
@@ -331,16 +332,26 @@ class Queue(Greenlet):
         """
         now = time.time()
         envelopes = self._run_policies(envelope)
-        ids = self._pool_imap('store', self.store.write, envelopes,
-                              repeat(now))
-        results = list(zip(envelopes, ids))
-        for env, id in results:
-            if not isinstance(id, BaseException):
-                if self.relay and id not in self.active_ids:
-                    self.active_ids.add(id)
-                    self._pool_spawn('relay', self._attempt, id, env, 0)
-            elif not isinstance(id, QueueError):
-                raise id  # Re-raise exceptions that are not QueueError.
+        # A storage that announces every write may hand a new message to the
+        # scheduler (which may deliver and remove it) before the id is known
+        # here: ids the scheduler picked up meanwhile are left to it.
+        taken = set()
+        watcher = object()
+        self.enqueue_watchers[watcher] = taken
+        try:
+            ids = self._pool_imap('store', self.store.write, envelopes,
+                                  repeat(now))
+            results = list(zip(envelopes, ids))
+            for env, id in results:
+                if not isinstance(id, BaseException):
+                    if self.relay and id not in self.active_ids \
+                            and id not in taken:
+                        self.active_ids.add(id)
+                        self._pool_spawn('relay', self._attempt, id, env, 0)
+                elif not isinstance(id, QueueError):
+                    raise id  # Re-raise exceptions that are not QueueError.
+        finally:
+            del self.enqueue_watchers[watcher]
         return results
 
     def _load_all(self):
@@ -464,6 +475,8 @@ class Queue(Greenlet):
         if id in self.active_ids:
             return
         self.active_ids.add(id)
+        for taken in self.enqueue_watchers.values():
+            taken.add(id)
         try:
             envelope, attempts = self.store.get(id)
         except KeyError:
